@@ -58,8 +58,9 @@ Proof. exact mps_eval_resume. Qed.
    is refuted by the faithful model for exactly these options, which are python attributes, not buffers:
      PIT      discrete_cost                      (cost)
      MPS      hard_softmax, the bound sampler: gumbel_softmax / disable_sampling, incl. the sampler reset performed by a
-              bare update_softmax_options(temperature=..)      (outputs, cost; disable_sampling also export scales)
-     SuperNet hard_softmax, softmax temperature   (outputs, cost, summary)
+              bare update_softmax_options(temperature=..)      (outputs, cost)
+     SuperNet hard_softmax, softmax temperature   (outputs, cost, summary; in train mode also the BatchNorm statistics
+              of the exported network)
    one witness each: *)
 Theorem C17_resume_after_option_change_refuted :
   (exists c ops n, c_meth c = PIT /\ ops = [OStep [] [[3 # 4; 1]] []; OSetDisc true] /\ ~ resume_statement c ops n) /\
@@ -71,10 +72,18 @@ Theorem C17_resume_after_option_change_refuted :
   (exists c ops n, c_meth c = SN /\ ops = [OTrain; OUpdate (Some (1 # 2)) None None None] /\ ~ resume_statement c ops n).
 Proof. exact resume_after_option_change_refuted. Qed.
 
-(* "after the usual forward pass" is necessary: MPS weight ranges / bias scales are recomputed on forward *)
+(* attributes that are recomputed on forward (MPS weight ranges, bias scales) coincide too after the forward pass *)
+Theorem C17_lazy_state_recomputed : forall c ops n r, c_meth c = MPS ->
+  resume n c (run (fresh c) ops) = Some r -> lazy r = lazy (forward n (run (fresh c) ops)) /\ lazy r <> None.
+Proof. exact lazy_state_recomputed. Qed.
+
+(* "after the usual forward pass" is necessary: before it the SuperNet cost reads a coefficient attribute that is not in the
+   state_dict, and the MPS ranges / scales do not exist *)
 Theorem C17_resume_without_forward_refuted :
-  exists c ops s', load (save (run (fresh c) ops)) (fresh c) = Some s' /\
-                   o_export (obs s') <> o_export (obs (run (fresh c) ops)).
+  (exists c ops s', c_meth c = SN /\ load (save (run (fresh c) ops)) (fresh c) = Some s' /\
+                    o_cost (obs s') <> o_cost (obs (run (fresh c) ops))) /\
+  (exists c ops s', c_meth c = MPS /\ load (save (run (fresh c) ops)) (fresh c) = Some s' /\
+                    lazy s' <> lazy (run (fresh c) ops)).
 Proof. exact resume_without_forward_refuted. Qed.
 
 (* non-vacuity: an MPS wrapper with a shared quantizer (two alias paths), 2 optimizer steps, a temperature change, eval:
@@ -98,4 +107,5 @@ Print Assumptions C17_mps_temperature_persisted.
 Print Assumptions C17_pit_resume_out_summary_export.
 Print Assumptions C17_mps_eval_resume.
 Print Assumptions C17_resume_after_option_change_refuted.
+Print Assumptions C17_lazy_state_recomputed.
 Print Assumptions C17_resume_without_forward_refuted.
